@@ -53,8 +53,8 @@ int main(int argc, char **argv) {
         r->run(R, cfg, idx / nr);
     });
     for (auto *r : sel) r->run(R, cfg, (uint64_t)-1); // flush counters
-    R.count("classes_driven", 0);
-    R.counter("classes_driven") = nr;
+    R.count("classes_driven_max", 0);
+    R.counter("classes_driven_max") = nr;
     R.write();
     return R.viols.empty() ? 0 : 1;
 }
